@@ -698,6 +698,9 @@ def main(ctx):
             cells.append({"kind": "bfs", "cfg": cfg, "depth": (depth if i < 2 or not ctx.quick else depth - 1) + (1 if (not ctx.quick and i < 2) else 0), "auto": auto, "new_runs": list(NEW_RUNS) if i in (0, 1) else ["n:seed"]})
     # seed None (OS entropy): the restored object must still equal the saved one
     cells.append({"kind": "bfs", "cfg": {"lineup": lineups[0], "seed": None, "dims": 2, "model": "gauss2", "ensemble": 1}, "depth": 3, "auto": True, "new_runs": []})
+    # documented options away from their defaults: simulation length != real length, convergence precision, verbose, ensemble 3
+    cells.append({"kind": "bfs", "cfg": {"lineup": lineups[0], "seed": S, "dims": 2, "model": "gauss2", "ensemble": 3, "sim_length": 13, "T": 8, "loss": "msm", "convergence_precision": 6, "verbose": True}, "depth": 3, "auto": True, "new_runs": []})
+    cells.append({"kind": "bfs", "cfg": {"lineup": lineups[2], "seed": S, "dims": 1, "model": "gauss2", "ensemble": 1, "sim_length": 11, "T": 8, "loss": "msm"}, "depth": 3, "auto": False, "new_runs": []})
     cells.append({"kind": "bfs", "cfg": {"lineup": lineups[2], "seed": None, "dims": 1, "model": "gauss2", "ensemble": 1}, "depth": 3, "auto": False, "new_runs": []})
     # more than ten parameters (column naming / ordering of the results table)
     cells.append({"kind": "bfs", "cfg": {"lineup": lineups[0], "seed": S, "dims": 12, "model": "gauss2", "ensemble": 1}, "depth": 2, "auto": True, "new_runs": []})
